@@ -362,6 +362,13 @@ def cases(tier, seed):
             if law == "HolzapfelOgden" and Z.dim_of(et) == 2 and (thorough or default_et):
                 # plane strain with a fibre that is not in the plane (still T1 perpendicular to T2, unit length)
                 out.append({"kind": "material", "law": law, "elemType": et, "letters": "reduced", "fibres": "tilted"})
+    # the matrix and right-hand side a dynamic Newton step hands to the linear solver: A = d(-b)/d u_(n+1), for every implicit scheme x
+    # stress option x viscosity (Kelvin-Voigt) on a real HyperElastic simulation
+    for algo, alpha in (("newmark", 0.5), ("midpoint", 0.5), ("hht", 0.05), ("hht", 0.3), ("hht_newmark", 0.2), ("euler_implicit", 0.5)):
+        for stress in ("pointwise", "gonzalez", "quadrature") if algo == "midpoint" else (("pointwise", "quadrature") if algo == "hht" and alpha == 0.3 else ("pointwise",)):
+            for eta in (0.0, 0.4):
+                for rho_kind in ("scalar", "array"):
+                    out.append({"kind": "simtangent", "algo": algo, "alpha": alpha, "stress": stress, "eta": eta, "rho": rho_kind})
     # fibre directions given as a per-Gauss-point FIELD of non-unit vectors (documented: normalised by the law)
     for et in BULK_TYPES:
         if thorough or et == DEFAULT_ET[Z.dim_of(et)] or et in ("TRI6", "TETRA4"):
@@ -648,6 +655,75 @@ def _run_material(case):
             "outcome": "violation" if out["viol"] else ("ok" if not ninc else "ok_some_entries_inconclusive"),
             "skipped": None if obs else "no admissible state",
             "info": {"entries": out["entries"], "inconclusive_entries": ninc, "max_truncation_rel": out["trunc"], "inadmissible": out["inadmissible"]}}
+
+
+def _run_simtangent(case):
+    from EasyFEA import AlgoType, Models, Simulations
+    from EasyFEA.Simulations.Solvers import ResolType
+
+    key = dict(kind="simtangent", algo=case["algo"], alpha=case["alpha"], stress=case["stress"], eta=case["eta"], rho=case["rho"])
+    def build(rho):
+        mesh_ = Z.template_2d("QUAD4", k=(2, 1), distort=True).build()
+        mat_ = Models.HyperElastic.NeoHookean(2, K=3.0, thickness=1.7)
+        mat_.eta = case["eta"]
+        s_ = Simulations.HyperElastic(mesh_, mat_, verbosity=False)
+        s_.rho = rho
+        s_.Solver_Set_Hyperbolic_Algorithm(0.07, algo=AlgoType[case["algo"]], alpha=case["alpha"])
+        if case["stress"] == "gonzalez":
+            s_.Solver_Set_Stress(s_.StressType.gonzalez)
+        elif case["stress"] == "quadrature":
+            s_.Solver_Set_Stress(s_.StressType.quadrature, nPoints=3)
+        return s_, mesh_
+
+    # density: a scalar, or the same value given as one entry per element (both must describe the same body)
+    simu, mesh = build(0.8 if case["rho"] == "scalar" else np.full(2, 0.8))
+    setter = getattr(simu, "_Simu__Solver_Set_Newton_Raphson_current_solution", None)
+    if setter is None or not hasattr(simu, "_Solver_Apply_Neumann") or not hasattr(simu, "_Solver_Apply_Dirichlet"):
+        return {"violations": [], "skipped": "private solver seams not available", "fingerprint": "na", "nontrivial": False, "transitions": 0}
+    pt = simu.problemType
+    n = mesh.Nn * 2
+    r = rng("c18simtangent", case["algo"], case["stress"])
+    simu._Set_solutions(pt, r.standard_normal(n) * 0.03, r.standard_normal(n) * 0.3, r.standard_normal(n) * 0.5)
+    u = np.asarray(simu._Get_u_n(pt), dtype=float) + r.standard_normal(n) * 0.02
+
+    def system(u_np1):
+        simu.Need_Update()
+        setter(u_np1.copy())
+        b = simu._Solver_Apply_Neumann(pt)
+        A, _ = simu._Solver_Apply_Dirichlet(pt, b, ResolType.r1)
+        return A.toarray(), np.asarray(b.todense()).ravel()
+
+    A, b0 = system(u)
+    v = []
+    if case["rho"] == "array":
+        twin, _ = build(0.8)
+        twin._Set_solutions(pt, *[np.asarray(x, dtype=float).copy() for x in (simu._Get_u_n(pt), simu._Get_v_n(pt), simu._Get_a_n(pt))])
+        twin.Need_Update()
+        getattr(twin, "_Simu__Solver_Set_Newton_Raphson_current_solution")(u.copy())
+        bt = twin._Solver_Apply_Neumann(pt)
+        At, _ = twin._Solver_Apply_Dirichlet(pt, bt, ResolType.r1)
+        eA = float(np.abs(At.toarray() - A).max()) / float(np.abs(A).max())
+        eb = float(np.abs(np.asarray(bt.todense()).ravel() - b0).max()) / max(float(np.abs(b0).max()), 1e-300)
+        if eA > 1e-12 or eb > 1e-12:
+            v.append(viol("density_form", f"{case['algo']}, stress {case['stress']}, eta {case['eta']}: the step system built with the density given as a uniform per-element "
+                                          f"array differs from the one built with the same scalar density (A: {eA:.2e}, b: {eb:.2e})", **key))
+    h = 1e-5
+    J1, J2 = np.zeros((n, n)), np.zeros((n, n))
+    for j in range(n):
+        e = np.zeros(n)
+        e[j] = 1.0
+        J1[:, j] = -(system(u + h * e)[1] - system(u - h * e)[1]) / (2 * h)
+        J2[:, j] = -(system(u + 2 * h * e)[1] - system(u - 2 * h * e)[1]) / (4 * h)
+    J = (4 * J1 - J2) / 3  # Richardson
+    sc = float(np.abs(J).max())
+    err = float(np.abs(A - J).max()) / sc
+    trunc = float(np.abs(J1 - J2).max()) / sc
+    if err > max(1e-6, 10 * trunc ** 2):
+        i, j = np.unravel_index(np.argmax(np.abs(A - J)), A.shape)
+        v.append(viol("system_tangent", f"{case['algo']} (alpha={case['alpha']}), stress {case['stress']}, eta {case['eta']}, density {case['rho']}: the matrix handed to the linear "
+                                        f"solver differs from d(-b)/d u_(n+1) by {err:.2e} (relative; entry [{i},{j}]: {A[i, j]:.8g} vs {J[i, j]:.8g})", **key))
+    # the inertia carried by the system: M sums to density x measure x thickness per direction (read through the scheme weight coefM)
+    return {"violations": v, "fingerprint": fp("simtangent", case, np.round(A, 8)), "nontrivial": True, "transitions": 4 * n + 1, "outcome": "ok" if not v else "violation"}
 
 
 def _run_ho_field(case):
